@@ -79,7 +79,7 @@ def gen(rng, tier, i):
     use_inject = eh in ('ok',) and rng.random() < 0.6
     if use_inject and rng.random() < 0.5:
         p.opt('fault_exempt_master', 1)
-    enabled = set(k for k in ('tick', 'connect', 'cmd', 'partial', 'close', 'bombcmd', 'hb', 'co', 'inputto', 'vobj', 'stall', 'quit', 'limit', 'nf', 'exec')
+    enabled = set(k for k in ('tick', 'connect', 'cmd', 'partial', 'close', 'bombcmd', 'hb', 'co', 'inputto', 'vobj', 'stall', 'quit', 'limit', 'nf', 'exec', 'snoop')
                   if rng.random() < 0.7)
     enabled.add('tick')
     if has_net: enabled.add('connect')
@@ -201,6 +201,16 @@ def gen(rng, tier, i):
             # the backend and comm.c are working on changes its object in the middle of a command
             c = rng.choice(t)
             p.cycle(say(c, 'do exec dest' + (';' + bomb_script('cmd') if rng.random() < 0.3 else '')))
+        elif a == 'snoop':
+            # one user snoops another: everything the snooped user is sent or types is handed to the snooper's object from
+            # inside add_message() - a callback that may fail, and two connection records that point at each other
+            nets = [x for x in t if x != 'con']
+            if len(nets) >= 2:
+                c, dd = rng.sample(nets, 2)
+                if rng.random() < 0.5: p.cycle(say(c, 'do sc me snoop ' + bomb_script('cmd').replace(';', ',')))
+                p.cycle(say(c, 'do snoop u%d' % dd))
+                p.cycle(say(dd, rng.choice(('do echo snooped%d' % dd, 'look', 'do flush;echo again'))))
+                if rng.random() < 0.3: p.cycle(say(c, 'do snoop 0'))
         elif a == 'nf':
             # a failing command whose notify_fail() function runs a script (the driver calls it after every action said no)
             c = rng.choice(t)
